@@ -490,6 +490,8 @@ theorem checkLimit_ok {l : Limit} {su sg : List String} {q : QD} {r : List Strin
   unfold checkLimit at h
   simp only [bind_ok, throw_bind, ite_err_ok] at h
   obtain ⟨_, su', _, sg', _, _, lr, hlr, _, happs, hfin⟩ := h
+  unfold limitResOf at hlr
+  simp only [throw_bind] at hlr
   have hparse : ∃ lr, parseConf l.maxRes = .ok lr := by
     by_cases hm : (mapLen l.maxRes != 0) = true
     · rw [if_pos hm] at hlr
